@@ -54,7 +54,10 @@ UDelim  == { NoParam, Str(""), Str(","), Str(",,"), Str("a"), Str("aa"), Str("X"
            \cup (IF Tier = "thorough" THEN { Str("~"), Str("ab"), Str(" "), Str("aXa"), Str("\n"), Str("b"), Bool(FALSE), EmptyArr, NaN } ELSE {})
 UJoin   == { EmptyArr, AS, Norm(ASD), A1, Arr(<<Str("a"), IntV(1)>>, <<>>), Arr(<<Str("")>>, <<>>),
              Arr(<<Str("a"), Str(""), Str("b")>>, <<>>), Arr(<<Str("x"), Str("-")>>, <<>>), Arr(<<Str("a,b"), Str("")>>, <<>>),
-             Arr(<<Str("a")>>, <<[k |-> [k |-> "str", s |-> "k"], v |-> IntV(1)]>>), Str("a"), Myst, IntV(1) }
+             Arr(<<Str("a")>>, <<[k |-> [k |-> "str", s |-> "k"], v |-> IntV(1)]>>), Str("a"), Myst, IntV(1),
+             \* only non-numeric keys: not an empty array
+             Arr(<<>>, <<[k |-> [k |-> "str", s |-> "k"], v |-> Str("v")]>>), Arr(<<>>, <<[k |-> [k |-> "str", s |-> "k"], v |-> IntV(1)]>>),
+             Arr(<<>>, <<[k |-> [k |-> "null"], v |-> Str("n")], [k |-> [k |-> "str", s |-> "k"], v |-> Str("v")]>>) }
 UJDelim == { NoParam, Str(""), Str(","), Str("-"), IntV(1), Myst, A1 }
 UCastN  == { Tiny(1, TinyText), Tiny(-1, TinyText), IntV(65), IntV(97), IntV(233), IntV(0), NZero, IntV(-1), Fin(4192), IntV(1114111), IntV(1114112),
              IntV(55295), IntV(55296), IntV(57343), IntV(57344), NaN, PInf, NInf, Huge, NHuge,
